@@ -20,6 +20,34 @@ EFFORT_EPSILON = 1e-7
 SLOT_EPSILON_SECONDS = 1e-3
 
 
+def _merge_allocations(allocations: Any) -> Any:
+    """
+    Bring the value of the 'allocate' attribute into one of the two shapes the scheduler
+    handles: a plain list of resource ids, or one record {'resources': [...], 'options': {...}}.
+
+    Several 'allocate' statements - own or inherited - accumulate in one list; if any of
+    them carries options (alternatives) the list mixes records and ids. Merge them.
+    """
+    if not isinstance(allocations, list) or not any(isinstance(entry, dict) for entry in allocations):
+        return allocations
+    resources: list[Any] = []
+    alternatives: list[Any] = []
+    options: dict[str, Any] = {}
+    for entry in allocations:
+        if isinstance(entry, dict):
+            resources.extend(entry.get("resources", []))
+            entry_options = entry.get("options", {}) or {}
+            alternatives.extend(entry_options.get("alternative", []))
+            for key, value in entry_options.items():
+                if key != "alternative":
+                    options[key] = value
+        else:
+            resources.append(entry)
+    if alternatives:
+        options["alternative"] = alternatives
+    return {"resources": resources, "options": options}
+
+
 class TaskScenario(ScenarioData):
     def __init__(self, task: "PropertyTreeNode", scenarioIdx: int, attributes: dict[str, Any]) -> None:
         super().__init__(task, scenarioIdx, attributes)
@@ -317,9 +345,7 @@ class TaskScenario(ScenarioData):
             return result_end
 
         # Normalize allocations
-        alloc_data = allocations
-        if isinstance(allocations, list) and len(allocations) == 1 and isinstance(allocations[0], dict):
-            alloc_data = allocations[0]
+        alloc_data = _merge_allocations(allocations)
 
         if isinstance(alloc_data, dict):
             resource_ids = alloc_data.get("resources", [])
@@ -427,9 +453,7 @@ class TaskScenario(ScenarioData):
         allocations = self.property.get("allocate", self.scenarioIdx)
 
         # Normalize allocations
-        alloc_data = allocations
-        if allocations and isinstance(allocations, list) and len(allocations) == 1 and isinstance(allocations[0], dict):
-            alloc_data = allocations[0]
+        alloc_data = _merge_allocations(allocations)
 
         resource = None
         if alloc_data:
@@ -1048,9 +1072,7 @@ class TaskScenario(ScenarioData):
         resource_ids = []
 
         # Normalize allocations
-        alloc_data = allocations
-        if isinstance(allocations, list) and len(allocations) == 1 and isinstance(allocations[0], dict):
-            alloc_data = allocations[0]
+        alloc_data = _merge_allocations(allocations)
 
         if isinstance(alloc_data, dict):
             resource_ids = alloc_data.get("resources", [])
@@ -1106,9 +1128,7 @@ class TaskScenario(ScenarioData):
             return self._checkProjectContiguousBlock(effort)
 
         # Normalize allocations
-        alloc_data = allocations
-        if isinstance(allocations, list) and len(allocations) == 1 and isinstance(allocations[0], dict):
-            alloc_data = allocations[0]
+        alloc_data = _merge_allocations(allocations)
 
         if isinstance(alloc_data, dict):
             resource_ids = alloc_data.get("resources", [])
@@ -1354,10 +1374,7 @@ class TaskScenario(ScenarioData):
         alternative_resources = []
 
         # Normalize allocations - can be list of strings, list containing dict, or dict
-        alloc_data = allocations
-        if isinstance(allocations, list) and len(allocations) == 1 and isinstance(allocations[0], dict):
-            # List containing a single dict with options
-            alloc_data = allocations[0]
+        alloc_data = _merge_allocations(allocations)
 
         if isinstance(alloc_data, dict):
             # New format with options: {'resources': [...], 'options': {...}}
